@@ -11,14 +11,14 @@ ABSENT = '<absent>'
 # attribute -> per-task values for the 4 tasks of a population (ABSENT = attribute not set at all)
 POPULATIONS = [
     {'name': [None, 'ab', 'ba', 'ab'], 'resource': ['ba', None, 'ab', 'ab'], 'estimate': [None, 2, 5, 2], 'spent': [5, None, 2, 0],
-     'milestone': [False, True, False, True], 'tag': [ABSENT, None, 'ab', 'ba'], 'num': [2, ABSENT, None, 5]},
+     'milestone': [False, True, False, True], 'tag': [ABSENT, None, 'ab', 'ba'], 'num': [2, ABSENT, None, 5], 'ticket_id': ['ab', 'ba', ABSENT, None]},
     {'name': ['ba', 'ba', None, 'ab'], 'resource': [None, None, 'ba', 'ab'], 'estimate': [5, 5, None, 2], 'spent': [None, 2, 2, 5],
-     'milestone': [True, False, False, False], 'tag': ['ab', ABSENT, ABSENT, None], 'num': [None, 5, 5, ABSENT]},
+     'milestone': [True, False, False, False], 'tag': ['ab', ABSENT, ABSENT, None], 'num': [None, 5, 5, ABSENT], 'ticket_id': [None, 'ab', 'ab', ABSENT]},
     # empty strings and zeros are values, not "lacking"
     {'name': ['', 'ab', None, ''], 'resource': ['ab', '', '', None], 'estimate': [0, 2, None, 0], 'spent': [0, 0, 5, None],
-     'milestone': [False, False, True, False], 'tag': ['', ABSENT, 'ab', None], 'num': [0, 2, ABSENT, 0]},
+     'milestone': [False, False, True, False], 'tag': ['', ABSENT, 'ab', None], 'num': [0, 2, ABSENT, 0], 'ticket_id': ['', 'ba', None, 'ab']},
 ]
-STR_ATTRS = ['name', 'resource', 'tag']
+STR_ATTRS = ['name', 'resource', 'tag', 'ticket_id']
 NUM_ATTRS = ['estimate', 'spent', 'num', 'id', 'parent_id']
 STR_VALUES = ['ab', 'ba', 'zz', '']
 NUM_VALUES = [2, 5, 3, 0]
